@@ -55,6 +55,7 @@ func runC12(seed uint64, n int, tier string, outDir string) []*Stats {
 	radiusModelCases(r, n, cf, st)
 	nestCases(r, n, cf, st)
 	nestExpandCases(r, n/2, cf, st)
+	nestSemCases(r, n, cf, st)
 	mangleCases(r, n/2, cf, st)
 	glueTransform(r, n/2, st, cf)
 	glueBoxFamilies(r, n/2+20, st)
